@@ -103,7 +103,7 @@ func main() {
 	last := time.Now()
 	for i := *start; i < *n; i++ {
 		rng := fw.CaseRng(*seed, *batch, i)
-		cs := e.Gen(rng, *tier, i)
+		cs := e.Gen(rng, *tier, *batch**n+i) // global case index
 		ctx.BeginCase(i, cs)
 		e.Run(ctx, cs)
 		if time.Since(last) > 2*time.Second {
